@@ -43,13 +43,15 @@ def main():
         res = {"demo_crate": demo_crate, "touched_crates": touched}
         demo = os.path.join(d, "demo.rs")
         if os.path.exists(demo):
+            os.makedirs(f"{WT}/crates/{demo_crate}/tests", exist_ok=True)
             shutil.copy(demo, f"{WT}/crates/{demo_crate}/tests/seeded_demo.rs")
-            rc, out = sh(f"cargo test --offline -p {demo_crate} --test seeded_demo 2>&1")
+            feats = " --features client,server" if demo_crate.endswith("-api") else ""
+            rc, out = sh(f"cargo test --offline -p {demo_crate}{feats} --test seeded_demo 2>&1")
             res["demo_without_patch"] = {"exit": rc, "tail": summary(out)}
         rc, out = sh(f"git apply {d}/patch.diff")
         res["patch_applies"] = rc == 0
         if os.path.exists(demo) and rc == 0:
-            rc2, out2 = sh(f"cargo test --offline -p {demo_crate} --test seeded_demo 2>&1")
+            rc2, out2 = sh(f"cargo test --offline -p {demo_crate}{feats} --test seeded_demo 2>&1")
             res["demo_with_patch"] = {"exit": rc2, "tail": summary(out2)}
             os.remove(f"{WT}/crates/{demo_crate}/tests/seeded_demo.rs")
         suites = {}
@@ -61,6 +63,8 @@ def main():
         for c in sorted(crates):
             if c == "ruma-common":
                 cmd = "cargo test --offline -p ruma-common --lib --features canonical-json 2>&1 && cargo test --offline -p ruma-common --test it -- --skip id_macros 2>&1"
+            elif c.endswith("-api"):
+                cmd = f"cargo test --offline -p {c} --features client,server 2>&1"
             else:
                 cmd = f"cargo test --offline -p {c} 2>&1"
             rc3, out3 = sh(cmd)
